@@ -54,6 +54,6 @@ FrameLaw == InDom => IFrames(s, Repaired) = Res(Frames(s))
 FrameShape == InDom => \A f \in 1..3 :
                  Len(Frames(s)[f]) = (IF Len(s) >= f - 1 THEN (Len(s) - (f - 1)) \div 3 ELSE 0)
 
-NameDomain256 == (s = <<>>) => /\ \A b \in Byte : IAminoNamePanics(b) = (b \notin NameDomain)
-                               /\ Cardinality(NameDomain) = 47
+NameDomain == (s = <<>>) => /\ \A b \in Byte : IAminoNamePanics(b) = (b \notin AminoNameBytes)
+                               /\ Cardinality(AminoNameBytes) = 47
 =============================================================================
